@@ -309,7 +309,14 @@ def handle (j : Json) : Json :=
     | "reader" => do
       let doc ← decVal (← j.getObjVal? "doc")
       let sel ← (← j.getObjVal? "selector").getStr?
-      pure (outcome id (Sel.execReader doc sel))
+      -- `topName` / `topImpl`: the registry as it is after `RegisterTopLevelFunction(topName, <topImpl>)`
+      let topName := (j.getObjValAs? String "topName").toOption.getD ""
+      let topImpl := (j.getObjValAs? String "topImpl").toOption.getD ""
+      match Sel.testImpl (N := Float) topImpl with
+      | some g =>
+        if topName = "" then pure (outcome id (Sel.execReader doc sel))
+        else pure (outcome id (Sel.execReaderWith (Sel.register Sel.builtins topName g) doc sel))
+      | none => pure (outcome id (Sel.execReader doc sel))
     | "vars" => do
       let st ← decRow (← j.getObjVal? "store")
       let opsJ ← (← j.getObjVal? "ops").getArr?
